@@ -149,11 +149,12 @@ class Machine:
         self.steps = 0
         self.counts = {}
         self.globals = {}        # optional: name -> address for `$name` operands (else Unsupported)
+        self.fill = 0            # optional: byte that freshly allocated stack memory holds
 
     def alloc(self, size, align):
         self.next -= size + align
         self.next &= ~(align - 1)
-        self.mem[self.next] = bytearray(size)
+        self.mem[self.next] = bytearray([self.fill & 0xff]) * size
         return self.next
 
     def find(self, addr, n):
